@@ -237,6 +237,10 @@ func (rt *runtime) convertNumeric(v Value, t reflect.Type) reflect.Value {
 	val := reflect.ValueOf(v.export())
 
 	if val.Kind() == t.Kind() {
+		if val.Type() != t {
+			// Same kind, named type (type MyInt int64).
+			return val.Convert(t)
+		}
 		return val
 	}
 
@@ -249,7 +253,7 @@ func (rt *runtime) convertNumeric(v Value, t reflect.Type) reflect.Value {
 		f64 := val.Float()
 		switch t.Kind() {
 		case reflect.Float64:
-			return reflect.ValueOf(f64)
+			return reflect.ValueOf(f64).Convert(t)
 		case reflect.Float32:
 			if reflect.Zero(t).OverflowFloat(f64) {
 				panic(rt.panicRangeError("converting float64 to float32 would overflow"))
@@ -520,7 +524,7 @@ func (rt *runtime) convertCallParameter(v Value, t reflect.Type) (reflect.Value,
 					err = fmt.Errorf("couldn't convert property %q of %s: %w", k, t, verr)
 					return false
 				}
-				m.SetMapIndex(reflect.ValueOf(k), v)
+				m.SetMapIndex(reflect.ValueOf(k).Convert(t.Key()), v)
 				return true
 			})
 
